@@ -17,91 +17,91 @@ ASSUMPTIONS = {
 
 PROPS = {
     "C01": {"level": "exploration", "profiles": [
-        {"id": "C01cli", "quick_n": 400, "thorough_n": 2000000000, "quick_s": 60, "thorough_s": 600, "seed_off": 500000,
+        {"id": "C01cli", "quick_n": 2000, "thorough_n": 2000000000, "quick_s": 60, "thorough_s": 600, "seed_off": 500000,
          "rule": "same generator through the in-process CLI: `wrgl commit -n N --mem-limit M --delimiter D` then `wrgl export`, parsed back and compared with the model; non-trivial = >=2 rows and (duplicate keys or >255 rows or spill)"},
-        {"id": "C01", "quick_n": 640, "thorough_n": 2000000000, "quick_s": 60, "thorough_s": 900,
+        {"id": "C01", "quick_n": 6000, "thorough_n": 2000000000, "quick_s": 60, "thorough_s": 900,
          "rule": "generated CSV x delimiter x run size x workers x store-op schedule; non-trivial = >=2 rows and (spill or >=2 blocks or duplicate keys or cell >=255 bytes); distinct by plan hash"},
     ]},
     "C16": {"level": "exploration", "profiles": [
-        {"id": "C16", "race": True, "cpu": 4, "hang_s": 30, "quick_n": 200, "thorough_n": 2000000000, "quick_s": 70, "thorough_s": 1500, "timeout": 180,
+        {"id": "C16", "race": True, "cpu": 4, "hang_s": 30, "quick_n": 240, "thorough_n": 2000000000, "quick_s": 70, "thorough_s": 1500, "timeout": 180,
          "rule": "one OS process per case under -race; synthetic multi-block table x workers 3..16 x run size x schedule seed x 0-2 injected store errors; non-trivial = >=2 effective workers and >=2 blocks (or an injected error fired); distinct by plan hash"},
     ]},
     "C19": {"level": "exploration", "profiles": [
-        {"id": "C19", "quick_n": 4000, "thorough_n": 2000000000, "quick_s": 60, "thorough_s": 900,
+        {"id": "C19", "quick_n": 20000, "thorough_n": 2000000000, "quick_s": 60, "thorough_s": 900,
          "rule": "row multisets x run size 1..inf x removed-column sets x feed path; non-trivial = >=3 rows and (>=1 spill file or removed columns or duplicate keys); distinct by plan hash"},
     ]},
     "C20": {"level": "exploration", "profiles": [
-        {"id": "C20", "quick_n": 8000, "thorough_n": 2000000000, "quick_s": 60, "thorough_s": 900,
+        {"id": "C20", "quick_n": 60000, "thorough_n": 2000000000, "quick_s": 60, "thorough_s": 900,
          "rule": "Add/Flush/Has/Len/reopen sequences (<=200 steps) over a 65-hash space x batch size, simulated file (thorough: also real file); non-trivial = >=2 flushes, >=1 repeat add, and (>=1 reopen or >=10 members); distinct by plan hash"},
     ]},
     "C18": {"level": "exploration", "profiles": [
-        {"id": "C18", "quick_n": 30000, "thorough_n": 2000000000, "quick_s": 60, "thorough_s": 900,
+        {"id": "C18", "quick_n": 100000, "thorough_n": 2000000000, "quick_s": 60, "thorough_s": 900,
          "rule": "valid encoded stream (9 kinds) x read partition (whole, 1-byte, fixed, header-straddling, random cuts, data+EOF); decode whole vs partitioned; non-trivial = partition delivered the stream in >=3 reads; distinct by plan hash"},
     ]},
     "C11": {"level": "exploration", "profiles": [
-        {"id": "C11", "quick_n": 3000, "thorough_n": 2000000000, "quick_s": 60, "thorough_s": 900,
+        {"id": "C11", "quick_n": 10000, "thorough_n": 2000000000, "quick_s": 60, "thorough_s": 900,
          "rule": "commit DAG (<=30 nodes) x timestamp regime; all ordered pairs for IsAncestorOf, full walk from every node, 40 sampled 2-4-tuples for SeekCommonAncestor; non-trivial = >=1 merge commit and timestamps inconsistent with topology; distinct by plan hash"},
     ]},
     "C15": {"level": "exploration", "profiles": [
-        {"id": "C15fs", "quick_n": 1500, "thorough_n": 2000000000, "quick_s": 40, "thorough_s": 300, "seed_off": 900000,
+        {"id": "C15fs", "quick_n": 6000, "thorough_n": 2000000000, "quick_s": 40, "thorough_s": 300, "seed_off": 900000,
          "rule": "file ref store (pkg/ref/fs, unused by the CLI): set / logged set / delete / get / rename / copy / log read / list by one directory-aligned prefix vs the map+logs model; non-trivial = >=6 ops incl. a listing and a rename/copy; distinct by plan hash"},
-        {"id": "C15", "quick_n": 1500, "thorough_n": 2000000000, "quick_s": 60, "thorough_s": 900,
+        {"id": "C15", "quick_n": 6000, "thorough_n": 2000000000, "quick_s": 60, "thorough_s": 900,
          "rule": "op sequences (<=40) over a hostile name alphabet on the real SQL ref store (real SQLite file, reopen, statement-level SQL faults); every return value and a full dump compared with a map+logs model after every step; non-trivial = >=8 ops incl. >=1 prefix listing or bulk op and >=1 rename/copy; distinct by plan hash"},
     ]},
     "C04": {"level": "exploration", "profiles": [
-        {"id": "C04", "quick_n": 2500, "thorough_n": 2000000000, "quick_s": 60, "thorough_s": 900,
+        {"id": "C04", "quick_n": 12000, "thorough_n": 2000000000, "quick_s": 60, "thorough_s": 900,
          "rule": "table pairs from edit scripts (cell edits, deletes at front/back/block edges/nested ranges, adds, identical, empty side, keyless, composite keys, 0-4 blocks), one or two stores; event multiset vs map-by-key model + offsets + self-diff + swap symmetry; non-trivial = >=2 event kinds or >=2 blocks on a side; distinct by plan hash"},
     ]},
     "C08": {"level": "exploration", "profiles": [
-        {"id": "C08", "quick_n": 3000, "thorough_n": 2000000000, "quick_s": 60, "thorough_s": 900, "timeout": 120,
+        {"id": "C08", "quick_n": 12000, "thorough_n": 2000000000, "quick_s": 60, "thorough_s": 900, "timeout": 120,
          "rule": "server DAG (<=48 commits) x ref tips x wants x multi-round have batches x depth x shallow commits; real finder per round vs graph model (closure, order, reachability, tables, refusal, step budget); non-trivial = >=2 rounds or (>=1 ack and >=1 merge commit listed); distinct by plan hash"},
     ]},
     "C07": {"level": "exploration", "profiles": [
-        {"id": "C07", "quick_n": 1500, "thorough_n": 2000000000, "quick_s": 60, "thorough_s": 900, "timeout": 120,
+        {"id": "C07", "quick_n": 8000, "thorough_n": 2000000000, "quick_s": 60, "thorough_s": 900, "timeout": 120,
          "rule": "source repo (DAG <=14, shared blocks) x pre-populated destination x tips x table depth x max packfile size x packfile read partition, real sender->packfile->receiver; adversarial object orders; non-trivial = (>=2 packfiles or pre-populated destination) and >=2 commits sent; distinct by plan hash"},
     ]},
     "C05": {"level": "exploration", "profiles": [
-        {"id": "C05", "cpu": 4, "quick_n": 1200, "thorough_n": 2000000000, "quick_s": 60, "thorough_s": 900, "timeout": 120,
+        {"id": "C05", "cpu": 4, "quick_n": 2400, "thorough_n": 2000000000, "quick_s": 60, "thorough_s": 900, "timeout": 120,
          "rule": "constructive 3-way merge scenarios (key anywhere or none, 1-3 blocks, 2-3 branches; disjoint edits, identical branches, branch = base, declared conflicts; column add/remove/move/rename; branch order permuted; hash-set batch; blocks or rows output); non-trivial = >=2 branches with edits or a conflict or a column operation; distinct by plan hash"},
     ]},
     "C02": {"level": "exploration", "profiles": [
-        {"id": "C02", "quick_n": 1500, "thorough_n": 2000000000, "quick_s": 60, "thorough_s": 900,
+        {"id": "C02", "quick_n": 8000, "thorough_n": 2000000000, "quick_s": 60, "thorough_s": 900,
          "rule": "one logical table under two presentations (row permutation x delimiter x run size x workers x schedule x store) => equal ids, no new object on re-ingest; one mutation => different id; CLI: commit --set-file, rewrite permuted, commit => 'hasn't changed' with ref/reflog untouched; non-trivial = >=3 rows and presentations differ in >=2 knobs; distinct by plan hash"},
     ]},
     "C13": {"level": "fault_enumeration", "profiles": [
-        {"id": "C13", "cpu": 4, "quick_n": 480, "thorough_n": 2000000000, "quick_s": 75, "thorough_s": 1500, "timeout": 300,
+        {"id": "C13", "cpu": 4, "quick_n": 1200, "thorough_n": 2000000000, "quick_s": 75, "thorough_s": 1500, "timeout": 300,
          "rule": "operation (commit existing/new branch, merge ff / --no-ff / 3-way, prune) via in-process CLI on a generated pre-state; every prefix of the recorded write log (object store + ref store) materialised as a crash state, checked for I1-I4, operation re-run and compared with the uninterrupted run; error and disk-full modes fail every write position; every case is non-trivial (>=2 writes); distinct by plan hash"},
     ]},
     "C14": {"level": "fault_enumeration", "profiles": [
-        {"id": "C14", "cpu": 2, "quick_n": 400, "thorough_n": 2000000000, "quick_s": 75, "thorough_s": 1200, "timeout": 300,
+        {"id": "C14", "cpu": 2, "quick_n": 2000, "thorough_n": 2000000000, "quick_s": 75, "thorough_s": 1200, "timeout": 300,
          "rule": "transaction staging 1..4 branches (new/existing) via CLI; `transaction commit|discard` with a crash after every write prefix and a failure at every store write, re-run; sequences commit;commit, commit;discard; non-trivial = >=2 staged branches; distinct by plan hash"},
     ]},
     "C09": {"level": "exploration", "profiles": [
-        {"id": "C09", "cpu": 2, "quick_n": 160, "thorough_n": 2000000000, "quick_s": 60, "thorough_s": 900, "timeout": 300,
+        {"id": "C09", "cpu": 2, "quick_n": 800, "thorough_n": 2000000000, "quick_s": 60, "thorough_s": 900, "timeout": 300,
          "rule": "multi-node run (clients L, L2, remote R over simnet + reference server), 6-17 ops, server knobs, client pack size, response chunking; fault-free; non-trivial = >=1 fetch and >=1 push that transferred objects; distinct by plan hash"},
-        {"id": "C09f", "cpu": 2, "quick_n": 160, "thorough_n": 2000000000, "quick_s": 60, "thorough_s": 900, "timeout": 300, "seed_off": 700000,
+        {"id": "C09f", "cpu": 2, "quick_n": 800, "thorough_n": 2000000000, "quick_s": 60, "thorough_s": 900, "timeout": 300, "seed_off": 700000,
          "rule": "as C09 with 1-4 network faults (request lost, response lost, 500/503, stream error mid-packfile, server restart, delay); non-trivial = >=1 fault fired and >=1 packfile transferred; distinct by plan hash"},
     ]},
     "C10": {"level": "exploration", "profiles": [
-        {"id": "C10", "cpu": 2, "quick_n": 240, "thorough_n": 2000000000, "quick_s": 60, "thorough_s": 900, "timeout": 300,
+        {"id": "C10", "cpu": 2, "quick_n": 1200, "thorough_n": 2000000000, "quick_s": 60, "thorough_s": 900, "timeout": 300,
          "rule": "same multi-node runs with the ref-transition monitor at the ref-store seam and on the receive-pack requests the client sends; non-trivial = >=1 rejected, forced or diverged update; distinct by plan hash"},
     ]},
     "C12": {"level": "exploration", "profiles": [
-        {"id": "C12", "quick_n": 1200, "thorough_n": 2000000000, "quick_s": 60, "thorough_s": 900, "timeout": 120,
+        {"id": "C12", "quick_n": 10000, "thorough_n": 2000000000, "quick_s": 60, "thorough_s": 900, "timeout": 120,
          "rule": "repository (DAG <=16, tables sharing blocks, refs of every kind incl. open-transaction and remote-tracking refs, shallow commits, deleted refs) pruned twice (library, or CLI prune then gc) vs a reachability model over the raw store; non-trivial = (>=1 commit removed and >=1 kept) or shallow commit present; distinct by plan hash"},
     ]},
     "C17": {"level": "exploration", "profiles": [
-        {"id": "C17w", "cpu": 2, "quick_n": 240, "thorough_n": 2000000000, "quick_s": 60, "thorough_s": 600, "timeout": 300, "seed_off": 300000,
+        {"id": "C17w", "cpu": 2, "quick_n": 600, "thorough_n": 2000000000, "quick_s": 60, "thorough_s": 600, "timeout": 300, "seed_off": 300000,
          "rule": "wire corruption: multi-node run with 1-4 replies of the remote truncated or bit-flipped in simnet; no panic/hang, success implies the C09 postcondition, I1-I4 on all nodes; non-trivial = >=1 corruption fired; distinct by plan hash"},
-        {"id": "C17", "quick_n": 3000, "thorough_n": 2000000000, "quick_s": 60, "thorough_s": 900, "timeout": 120, "mem_gb": 4,
+        {"id": "C17", "quick_n": 12000, "thorough_n": 2000000000, "quick_s": 60, "thorough_s": 900, "timeout": 120, "mem_gb": 4,
          "rule": "one corruption (bit flip, truncation, inflated 32/16-bit count, wrong label, zeroed run, trailing garbage; raw or inside the s2 frame) of one stored object / packfile / encoded stream, read through every reader that reaches it; every case non-trivial; distinct by plan hash"},
     ]},
     "C06": {"level": "exploration", "profiles": [
-        {"id": "C06", "quick_n": 640, "thorough_n": 2000000000, "quick_s": 60, "thorough_s": 900, "timeout": 120,
+        {"id": "C06", "quick_n": 3000, "thorough_n": 2000000000, "quick_s": 60, "thorough_s": 900, "timeout": 120,
          "rule": "field extremes through `wrgl commit` (message/name/email 0..70000 bytes, clock up to 2292 and zone offsets incl. half hours, rows crossing 64 KiB, 1..256 rows) and the packfile length header over varint boundaries up to 64 bits; error at write time with the branch untouched, or read back equal; non-trivial = a field at/over a limit, a clock/zone extreme or a >=30000-byte cell; distinct by plan hash"},
     ]},
     "C03": {"level": "exploration", "profiles": [
-        {"id": "C03", "cpu": 4, "quick_n": 1200, "thorough_n": 2000000000, "quick_s": 60, "thorough_s": 900, "timeout": 120,
+        {"id": "C03", "cpu": 4, "quick_n": 4000, "thorough_n": 2000000000, "quick_s": 60, "thorough_s": 900, "timeout": 120,
          "rule": "boundary-size tables (0..766 rows, keyed/keyless, all-empty row) x producers (ingest under seeded schedule, merge commit, wire receipt, doctor resolve of a planted duplicate): structural invariants + doctor.Diagnose reports nothing; non-trivial = >=255 rows or producer != ingest; distinct by plan hash"},
     ]},
 }
